@@ -2,6 +2,8 @@
 //
 //	layer 1: the real merge step (mergeEvents, through VerifMergeEvents) on generated block event lists; additive
 //	         effects and append-only rows are summarised the same way before and after the merge and compared;
+//	real emission (real.go): blocks of real zcnsc burn / mint transactions executed through Chain.UpdateState; the events the
+//	         execution returned go through the same merge step and handlers, the reference is read from the transactions;
 //	layer 2: the real EventDb.ProcessEvents on the in-memory (sqlite) event database, fed with the bridge events of the
 //	         generated blocks; afterwards GetBurnTickets must return one row per burn, and the batch UPDATE that the
 //	         authorizer-total handlers issue (Postgres-only SQL, captured from the gorm logger, not executed) must carry
@@ -25,28 +27,33 @@ import (
 const rule = "blocks = seeded lists of operations (0-6 burns, 0-6 mints, 0-3 each of stake/read-pool/write-pool lock+unlock, rewards, penalties, reward collection, write/read markers, challenge add/update, plain, chain and error events) over entity pools of size 1, 2 or 6 " +
 	"(so operations share or do not share a client / ethereum address / provider), each operation emitting the events its contract function emits (tag, index, payload type) after the chain's transaction + fee events; " +
 	"one evaluation = one block through the real merge step (layer 1) or through the real ProcessEvents on the sqlite event DB (layer 2); " +
-	"distinct = (tag, number of events of that tag in the block capped at 4, largest group of them sharing one index capped at 3) triples plus bridge classes (burns, ethereum addresses, burners / mints, minters per block)"
+	"real emission = blocks of real zcnsc transactions (1-6 burns by 1, 2 or more clients toward 1, 2 or more ethereum addresses incl. two clients toward one address, one client toward two addresses, one client twice toward one address; mints signed by registered authorizers; refused burns) executed through Chain.UpdateState, their returned events merged and handled as above and judged against a reference read from the transactions; " +
+	"distinct = (tag, number of events of that tag in the block capped at 4, largest group of them sharing one index capped at 3) triples plus bridge classes (burns, ethereum addresses, burners / mints, minters per block), for real blocks (burns, addresses, burners, the three sharing classes, mints, minters, refused)"
 
 // Main is the engine entry point.
 func Main(args []string) int {
 	fs := flag.NewFlagSet("evdb", flag.ExitOnError)
 	prop := fs.String("prop", "C20", "property id")
 	tier := fs.String("tier", "quick", "quick|thorough")
-	child := fs.String("child", "", "child kind (internal): merge|db")
+	child := fs.String("child", "", "child kind (internal): merge|db|real")
 	idx := fs.Int("idx", 0, "child index (internal)")
 	blocks := fs.Int("blocks", 0, "blocks per child")
+	hists := fs.Int("hists", 1, "real histories per child (internal)")
 	_ = fs.Parse(args)
 	if *prop != "C20" {
 		fmt.Println("evdb serves C20 only")
 		return 2
 	}
 	nMerge, nDB, nbMerge, nbDB := 4, 4, 1500, 60
+	// real emission: children x histories x blocks per history
+	nReal, nhReal, nbReal := 3, 2, 40
 	if *tier == "thorough" {
 		nMerge, nDB, nbMerge, nbDB = 12, 12, 20000, 600
+		nReal, nhReal, nbReal = 10, 4, 160
 	}
 	if *child != "" {
 		n := *blocks
-		return childMain(*tier, *child, *idx, n)
+		return childMain(*tier, *child, *idx, n, *hists)
 	}
 	defer mon.CleanScratch()
 	run := mon.NewRun("C20", *tier, "exploration", rule)
@@ -62,6 +69,10 @@ func Main(args []string) int {
 	for i := 0; i < nDB; i++ {
 		specs = append(specs, mon.ChildSpec{Name: fmt.Sprintf("db%d", i), Timeout: to,
 			Args: []string{"evdb", "-prop", "C20", "-tier", *tier, "-child", "db", "-idx", fmt.Sprint(i), "-blocks", fmt.Sprint(nbDB)}})
+	}
+	for i := 0; i < nReal; i++ {
+		specs = append(specs, mon.ChildSpec{Name: fmt.Sprintf("real%d", i), Timeout: to,
+			Args: []string{"evdb", "-prop", "C20", "-tier", *tier, "-child", "real", "-idx", fmt.Sprint(i), "-blocks", fmt.Sprint(nbReal), "-hists", fmt.Sprint(nhReal)}})
 	}
 	res := mon.RunChildren(run, specs, 14)
 	for _, cr := range res {
@@ -79,7 +90,16 @@ func Main(args []string) int {
 	run.RequireMin("mon:db-mint-total-statements", 20)
 	run.RequireMin("blocks:burns>=2-same-address", 50)
 	run.RequireMin("blocks:burns>=2-different-addresses", 50)
-	run.Assume("the event lists are generated from the contracts' emission code (zcnsc/burn.go, mint.go, stakepool, storagesc *_eventdb.go, Chain.ComputeState); the contracts themselves are driven by engine schist, not here")
+	// real emission: a run that did not execute the real bridge contracts in the decisive block classes proves nothing about them
+	run.RequireMin("real:blocks", 100)
+	run.RequireMin("real:burns", 200)
+	run.RequireMin("real:blocks-two-clients-one-address", 20)
+	run.RequireMin("real:blocks-one-client-two-addresses", 20)
+	run.RequireMin("real:blocks-one-client-twice-one-address", 20)
+	run.RequireMin("mon:db-real-burn-total-statements", 100)
+	run.RequireMin("real:burn-tickets-expected", 200)
+	run.Assume("the event lists of layers 1 and 2 are generated from the contracts' emission code (zcnsc/burn.go, mint.go, stakepool, storagesc *_eventdb.go, Chain.ComputeState); the bridge contract itself is driven in the real-emission part (next assumption), the other contracts by engine schist")
+	run.Assume("real emission: burn, mint and add-authorizer transactions are executed through the real Chain.UpdateState on a genesis world (no storage / miner set-up, event database of the chain switched off); the events UpdateState returned for the block are what is merged and handled, so chain-level user events (emitted only with an event database attached) are not part of the real lists; the reference is read from the transactions (client, value, submitted payload, recorded output, balance change of the minting client)")
 	run.Assume("the event database is sqlite in memory: gorm-native handlers (burn tickets, user mint nonce, event rows) really execute; the Postgres-only batch updaters (UPDATE … FROM unnest(…)) cannot execute — their SQL text with bound arrays is captured from the gorm logger and judged, the execution by Postgres is out of reach")
 	return run.Finish()
 }
@@ -96,7 +116,7 @@ func firstPanicLine(log string) string {
 	return "no panic line"
 }
 
-func childMain(tier, kind string, idx, n int) int {
+func childMain(tier, kind string, idx, n, nh int) int {
 	run := mon.NewRun("C20", tier, "exploration", "")
 	defer func() {
 		if e := recover(); e != nil {
@@ -111,6 +131,8 @@ func childMain(tier, kind string, idx, n int) int {
 		mergeChild(run, r, idx, n)
 	case "db":
 		dbChild(run, r, idx, n)
+	case "real":
+		realChild(run, r, idx, nh, n)
 	}
 	run.Checkpoint()
 	return 0
